@@ -11,19 +11,26 @@ func vh_C01_server_read_clamp() {
 	vEnvReset()
 	vHReset()
 	maxTx := vNondetU32()
-	vAssume(maxTx >= 32768 && maxTx <= 200000)
+	vAssume(maxTx >= 32768 && maxTx <= 1<<20)
 	rlen := vNondetU32()
-	vAssume(rlen <= 250000)
+	vAssume(rlen <= 300000)
 	want := rlen
 	if want > maxTx {
 		want = maxTx
+	}
+	// with the allocator a page bounds the buffer as well - above every packet
+	// size a client can use (the largest DATA reply it accepts carries 262135
+	// bytes; added after seeded change C01-e)
+	var alloc *allocator
+	if vNondetBool() {
+		alloc = newAllocator()
 	}
 	pkt := &sshFxpReadPacket{ID: 7, Handle: "1", Offset: 0, Len: rlen}
 	var got int64 = -1
 	switch k := vChoice(3); k {
 	case 0:
 		svr := vNewServer(false, "")
-		svr.maxTxPacket = maxTx
+		svr.maxTxPacket, svr.pktMgr.alloc = maxTx, alloc
 		svr.openFiles["1"] = &vMFile{name: "/o", data: []byte{1, 2, 3}}
 		_, _, err := vWorkerStep(svr, pkt)
 		vAssert(err == nil, "worker continues")
@@ -34,7 +41,7 @@ func vh_C01_server_read_clamp() {
 		}
 	default:
 		rs := vNewRequestServer(Handlers{vH{}, vHOpenFile{}, vH{}, vH{}}, "/")
-		rs.maxTxPacket = maxTx
+		rs.maxTxPacket, rs.pktMgr.alloc = maxTx, alloc
 		vOpenRequestOfKind(rs, (k-1)*2) // reader handle, or read-writer handle
 		_, err := vRSStep(rs, pkt)
 		vAssert(err == nil, "worker continues")
@@ -44,5 +51,13 @@ func vh_C01_server_read_clamp() {
 			}
 		}
 	}
-	vAssert(got == int64(want), "the read buffer has length min(requested, server maximum payload)")
+	if alloc == nil || rlen <= 262135 {
+		vAssert(got == int64(want), "the read buffer has length min(requested, server maximum payload)")
+	} else {
+		page := int64(want)
+		if page > maxMsgLength {
+			page = maxMsgLength
+		}
+		vAssert(got == page, "above the largest packet a client can use, the page size bounds the buffer further")
+	}
 }
